@@ -218,6 +218,14 @@ def c22_2(cx):
     iu = cx.one_call(b, r"^hashbrown::HashTable::<T, A>::insert_unique$", "insert_unique in reuse path")
     res = cx.one_call(b, r"^hashbrown::HashTable::<T, A>::reserve$", "reserve before slot surgery")
 
+    # the window opens at the FIRST mutation of the shard for this reuse: the LRU unlink or the removal of the stale
+    # key-map entry, whichever comes first
+    kmr = [r for r in b.calls(r"OccupiedEntry::<'a, T, A>::remove$") if b.reaches(r, rep)]
+    opens = first + kmr
+    start = [m for m in opens if all(m == o or b.reaches(m, o) for o in opens)]
+    cx.require(len(start) == 1, "W4: a unique first mutation of the reuse path")
+    first = start
+
     def exempt(s):
         if s == iu and b.site_dominates(res, first[0]) and cx.arg(res, 0) == cx.arg(iu, 0):
             # no insertion into the table between reserve and insert_unique
@@ -227,7 +235,7 @@ def c22_2(cx):
         return None
 
     check_window(cx, b, "W4", first[0], pf + [iu], exempt=exempt)
-    cx.order(res, first[0], "W4: capacity is reserved (user hashing may run) before the slot is unlinked")
+    cx.order(res, first[0], "W4: capacity is reserved (user hashing may run) before the slot is unlinked or its key-map entry removed")
     asm = [s for s in b.calls(r"^std::ops::FnOnce::call_once$") if b.reaches(s, rep)]
     for s in asm:
         cx.check(not b.reaches(first[0], s), "W4: `assemble` (user code) runs before the slot is touched", s, key="W4 assemble-first")
@@ -348,3 +356,28 @@ def c22_4(cx):
     gd = cx.facts.drop_impl(r"CancellationFlagGuard")
     cx.require(gd is not None, "Drop for CancellationFlagGuard")
     cx.must_call(gd, r"^runtime::Runtime::reset_cancellation_flag$", "the flag guard resets the flag")
+
+
+@ob("C22.5", ["C22", "C07", "C01"], "an unwind guard must put back the state that was there: releasing the tracked-struct write lock with the CURRENT revision stamps a half-updated struct as 'already updated in this revision', so the retry returns early and serves last revision's fields as if they were fresh", kind="FLOW (repair guard restores the observed state)")
+def c22_5(cx):
+    """tracked_struct::update: the UnlockOnUnwind guard is built from (&updated_at of this slot, the value loaded from updated_at BEFORE the lock word was swapped to None); its Drop swaps that value back only when thread::panicking(); it is created after the lock was taken and before the first user call."""
+    u = cx.fn(r"^tracked_struct::IngredientImpl::<C>::update$")
+    ag = cx.one(u.aggregates(r"update::UnlockOnUnwind$"), "UnlockOnUnwind aggregate in update")
+    o = u._origin_def(ag, "assign", ag.node(), 0, None, ())
+    ld = [s for s in u.calls(r"^revision::OptionalAtomicRevision::load$")]
+    sw = [s for s in u.calls(r"^revision::OptionalAtomicRevision::swap$")]
+    cx.sites(sw, 2, "lock-word swaps in update")
+    take = [s for s in sw if cx.arg(s, 1).startswith("Option::None")]
+    cx.sites(take, 1, "the swap(None) that takes the write lock")
+    cx.flow(u, o, [r"previous: revision::OptionalAtomicRevision::load\(.*\.updated_at\)\}$"], [r"previous: Option::Some\{0: zalsa::Zalsa::current_revision", r"previous: Option::None"], "the guard remembers the revision observed before the lock was taken", ag)
+    cx.flow(u, o, [r"^UnlockOnUnwind\{updated_at: .*\.updated_at, previous:"], [], "and points at this slot's lock word", ag)
+    for l in ld:
+        if cx.arg(l, 0) and "updated_at" in cx.arg(l, 0):
+            cx.check(not u.reaches(take[0], l), "the remembered revision is loaded before the lock word is overwritten", l, key="load-before-take")
+    cx.check(u.reaches(take[0], ag), "the guard is armed once the lock is held", ag, key="armed-after-take")
+    d = cx.facts.drop_impl(r"update::UnlockOnUnwind")
+    cx.require(d is not None, "Drop for UnlockOnUnwind")
+    s2 = cx.one_call(d, r"^revision::OptionalAtomicRevision::swap$", "swap in UnlockOnUnwind::drop")
+    cx.flow(d, cx.arg(s2, 1), [r"^\$1\.previous$"], [r"^Option::", r"current_revision"], "the guard restores exactly what it remembered", s2)
+    cx.flow(d, cx.arg(s2, 0), [r"^\$1\.updated_at$"], [], "into the lock word it guards", s2)
+    cx.only_if(d, s2, CallIs(r"thread::panicking$", True, desc="thread::panicking()"), "the lock word is touched by the guard only while unwinding")
